@@ -255,8 +255,12 @@ def run(ctx: Ctx) -> None:
             mx = f.max_absolute_value
             xs_ = torch.tensor([0.3, -1.7, mx, mx * (1 + 2.0 ** -12), mx * 1.5, -mx * 4, mx * (1 - 2.0 ** -(M + 2)),
                                 f.min_absolute_subnormal * 0.6, -f.min_absolute_normal * 1.3], dtype=torch.float32)
-            want = f.quantise(xs_)
-            want0 = f.quantise(torch.tensor(-mx * 2, dtype=torch.float32))
+            want = want0 = None
+            with ctx.guard("C13:default-dtype:float32", {"E": E, "M": M}):
+                want = f.quantise(xs_)
+                want0 = f.quantise(torch.tensor(-mx * 2, dtype=torch.float32))
+            if want is None or want0 is None:
+                continue
             for dd in (torch.float64, torch.bfloat16, torch.float16):
                 key = {"E": E, "M": M, "default_dtype": str(dd)}
                 ctx.count(key, bucket="default-dtype")
